@@ -51,7 +51,7 @@ CHECKS["C09"] = ("Proof: C09.accepted / refused / accepted_iff / missing_source 
                  "single-file lengths across the frontier, missing sources at every index, pre-existing target.", T, "7 C09")
 
 D = "Lean 4 theorems (first layer) + model/code correspondence (differential, real tools vs compiled model) + independent-decoder oracle"
-CHECKS["C02"] = ("Proof: C02.create_then_extract — for every list of sources with ordinary catalog names (any contents, sizes 0 .. beyond a side, "
+CHECKS["C02"] = ("Proof: C02.small_batch_in_order — a batch that fits on side 0 is stored entry by entry in the order given and extracted as side0/NAME.EXT in that order with its data (the entry taken is the first that is not live); C02.generated_layout (sizes at the top of writeFile, translated); C02.create_then_extract — for every list of sources with ordinary catalog names (any contents, sizes 0 .. beyond a side, "
                  "end-of-side markers, missing files, refusals) --create returns 0 and writes the archive of a consistent image; --extract of that "
                  "archive (either verbosity, with or without --into) returns 0 and writes exactly the files of the image as target/sideN/NAME.EXT in "
                  "catalog order; every file of the image is the exact data of one of the sources under the entry written for it. Built on "
